@@ -69,7 +69,9 @@ fn strict(cfg: &Cfg, model: &Model, tag: &str, it: &Item, k: usize, sk: &mut Sin
         }
         let mut tbl = ModelTable::new();
         let j = model.judge(cfg, &mut tbl, f, o.reply.as_deref());
-        let lenient_valid = j.abstained.as_deref() == Some("dns-trailing-bytes");
+        // (a query followed by bytes that may be its records: the reference abstains, the bytes may
+        // well be a request)
+        let lenient_valid = j.abstained.as_deref() == Some("dns-trailing-bytes") || j.abstained.as_deref() == Some("dns-query-with-records");
         let must_answer = lenient_valid || (j.abstained.is_none() && !j.class.contains("silent") && !j.class.starts_with("abstain"));
         if !must_answer {
             sk.violation(Violation {
@@ -244,6 +246,31 @@ pub fn run(rep: &mut Report, thorough: bool) {
                 _ => flow6(1, 1).ip_frame(P_ICMP6, &icmp6(&cli6(), &srv6(), 136, d[1] as u8, &body)),
             }
         });
+        // reply-typed messages of one protocol whose bytes ALSO read as (almost) a request of another:
+        // a cookie-less STUN response / indication / error whose transaction id reads as a DNS
+        // header tail plus one IN/A question, with every combination of answer / authority /
+        // additional counts 0..2 (records not present) and 0 / 8 / 12 bytes of attributes behind it
+        {
+            let types: [u16; 4] = [0x0101, 0x0111, 0x0011, 0x0102];
+            let lens: [u16; 3] = [0, 8, 12];
+            let dims = [types.len() as u64, lens.len() as u64, 27, 2];
+            strict_sweep(rep, &format!("reply-typed-polyglots-{}", tag), "cookie-less STUN message types {success, error, indication, 0x0102} x declared length {0, 8, 12} x (ANCOUNT, NSCOUNT, ARCOUNT) in 0..2 each (transaction id = DNS counts + question 'ns' IN A) x destination port {3478, 53}", product(&dims), "stun", &|i| {
+                let d = unrank(i, &dims);
+                let (an, ns, ar) = ((d[2] / 9) as u16, ((d[2] / 3) % 3) as u16, (d[2] % 3) as u16);
+                let l = lens[d[1] as usize];
+                let mut m: Vec<u8> = Vec::new();
+                m.extend_from_slice(&types[d[0] as usize].to_be_bytes());
+                m.extend_from_slice(&l.to_be_bytes());
+                for w in [1u16, an, ns, ar] {
+                    m.extend_from_slice(&w.to_be_bytes());
+                }
+                m.extend_from_slice(&[2, b'n', b's', 0, 0, 1, 0, 1]);
+                m.extend_from_slice(&[0u8, 1, 0, 8, 0, 1, 0x9c, 0x40, 10, 0, 0, 9][..l as usize]);
+                // (IPv4 only: with all counts 0 the bytes ARE a valid IN/A query, and what such a
+                // query gets over IPv6 is a corner the reference abstains on)
+                flow4(40000, if d[3] == 1 { 53 } else { 3478 }).udp(&m)
+            });
+        }
         // neighbour advertisements in every flag combination (Router / Solicited / Override and the
         // reserved bits), for handled and foreign targets, with and without a target link-layer
         // option, unicast and to all-nodes; redirect (137) and router advertisement (134) too
